@@ -404,7 +404,17 @@ func (r *renderer) holeText(h *SHole) string {
 	if p == "$match[1:]" && len(r.match) > 0 {
 		return r.match[1:]
 	}
-	if isIntType(h.Typ) {
+	// strconv.Itoa(<int>) / fmt.Sprint(<int>) is that integer's decimal text
+	intLike := isIntType(h.Typ)
+	if isStringType(h.Typ) && h.Itoa {
+		for _, pre := range []string{"strconv.Itoa(", "fmt.Sprint("} {
+			if strings.HasPrefix(p, pre) && strings.HasSuffix(p, ")") {
+				p = strings.TrimSuffix(strings.TrimPrefix(p, pre), ")")
+				intLike = true
+			}
+		}
+	}
+	if intLike {
 		if reLoopVar.MatchString(p) {
 			if i, lp, ok := r.iterOf(p); ok {
 				if lp.Lo >= 0 {
